@@ -199,7 +199,7 @@ def oracle(run, s, o):
 def run(run: Run):
     run.run_audit()
     specs = gen_specs(run)
-    sessions.run_sessions(run, specs, oracle, relevant=0xFF, jobs=12)
+    sessions.run_sessions(run, specs, oracle, relevant=0x1FF, jobs=12)
     return run.finish(
         "proof",
         "batches of sizes around every chunk boundary with no / one / two invalid members (eight kinds of invalidity) at first / last / boundary / random "
